@@ -689,13 +689,13 @@ func c17Writers(bound int) vh.Unit {
 }
 
 // Real sockets: what was written before Close arrives, however much is still on its way when the
-// writer closes (6 MB through loopback TCP, a reader that is slower than the writer), for both
+// writer closes (25 MB through loopback TCP - more than the socket buffers hold - and a reader that is slower than the writer), for both
 // WebSocket codecs in both directions. The in-memory connections above have no socket buffers and
 // no close semantics of their own; the codecs' Close runs against the kernel's here.
 func c17TCPCloseAfterBurst() vh.Unit {
 	return vh.Unit{Name: "tcp/close-right-after-a-burst", Run: func(u *vh.U) {
 		vsched.SetVirtualClock(false) // real sockets, real time
-		const n, size = 400, 16 << 10
+		const n, size = 400, 64 << 10
 		for _, kind := range []string{"gorilla", "gobwas"} {
 			for _, dir := range []string{"client-to-server", "server-to-client"} {
 				ln, err := net.Listen("tcp", "127.0.0.1:0")
@@ -767,9 +767,7 @@ func c17TCPCloseAfterBurst() vh.Unit {
 						break
 					}
 					got++
-					if got%8 == 0 {
-						time.Sleep(time.Millisecond) // a reader slower than the writer
-					}
+					time.Sleep(2 * time.Millisecond) // a reader much slower than the writer: the buffers fill up
 				}
 				we := <-werr
 				rd.Close()
@@ -785,7 +783,7 @@ func c17TCPCloseAfterBurst() vh.Unit {
 				}
 			}
 		}
-		u.Sample("400 x 16 kB over loopback TCP, Close right after the last write, reader pausing 1 ms every 8 messages")
+		u.Sample("400 x 64 kB (more than the socket buffers hold) over loopback TCP, Close right after the last write, reader pausing 2 ms per message")
 	}}
 }
 
